@@ -124,13 +124,18 @@ Record case := mkCase {
   c_wf : list onode;            (* wf = Workflow(builders[0]) *)
   c_ins : list positive;        (* wf.input_tasks *)
   c_outs : list positive;       (* wf.output_tasks *)
+  c_ups : list (list nat);      (* wf.get_upstream_tasks(t) for every task t of wf, as node positions *)
   c_prep : list onode;          (* the workflow execute_workflow hands to the dispatcher *)
   c_keys : list positive;       (* its as_dask_dict(): keys in dict order ('results' = 1) *)
   c_dict : option dsk;          (*                    : the dict, None = ValueError *)
   c_result : result;            (* execute_workflow(wf, dispatcher=local_dask threaded, context=ctx) *)
   c_log : list event;           (* calls of the task functions during that execution *)
-  c_alt : list (result * nat)   (* the same workflow's as_dask_dict() run by other schedulers (synchronous dask.get,
-                                   threaded with 1 worker, threaded with 8 workers): result, number of calls *)
+  c_alt : list (result * nat);  (* the same workflow's as_dask_dict() run by other schedulers (synchronous dask.get,
+                                   threaded with 1 worker, threaded with 8 workers, and the OPTIMIZED dict with the
+                                   futures unpacked): result, number of calls *)
+  c_scat : option dsk;          (* {k: _scatter_computation(Future, client, v)} of c_dict with a recording client *)
+  c_opt : option dsk;           (* optimize_task_graph_for_dask_distributed(client, c_dict) *)
+  c_fsteps : list fstep         (* what fuse did, read off c_opt: inlined keys, aliases *)
 }.
 
 (* the pure test family: f(args...) returns (marker of f, args...) *)
@@ -184,6 +189,13 @@ Definition pred_key_positions (d : dsk) (n : nat) (v : sval) : list nat :=
   | _ => []
   end.
 
+(* two dicts as maps: same number of entries, every entry of a is an entry of b *)
+Definition dsk_same (a b : dsk) : bool :=
+  (length a =? length b) &&
+  forallb (fun kv => match dlookup b (fst kv) with Some v => sval_eqb v (snd kv) | None => false end) a.
+Definition odsk_same (a b : option dsk) : bool :=
+  match a, b with Some x, Some y => dsk_same x y | None, None => true | _, _ => false end.
+
 Definition verdict (c : case) : list nat :=
   let '(st, next, errs) := run_ops (c_tasks c) (c_ctx c) 0 (c_ops c)
                                    (repeat g_empty (c_nb c), Pos.of_succ_nat (length (c_tasks c))) in
@@ -198,11 +210,22 @@ Definition verdict (c : case) : list nat :=
   tag (list_eqb Nat.eqb errs (c_errs c)) 1 ++
   tag (obs_eqb (obs_of gb) (c_builder c)) 2 ++
   tag (obs_eqb (obs_of wf) (c_wf c)) 3 ++
-  tag (lpos_eqb (map tid (input_tasks wf)) (c_ins c) && lpos_eqb (map tid (output_tasks wf)) (c_outs c)) 4 ++
+  tag (lpos_eqb (map tid (input_tasks wf)) (c_ins c) && lpos_eqb (map tid (output_tasks wf)) (c_outs c)
+       && list_eqb lnat_eqb (map (fun t => map (fun u => index_of u (nodes wf)) (upstream task task_eqb wf t)) (nodes wf))
+                            (c_ups c)) 4 ++
   tag (obs_eqb (obs_of prep) (c_prep c)) 5 ++
   tag (odsk_eqb md (c_dict c)) 6 ++
   tag (result_eqb mres (c_result c)) 7 ++
   tag (perm_eqb mlog (c_log c)) 8 ++
+  (* optimize.py (only exported for acyclic single-sink workflows: dask.optimization.fuse does not terminate on a cycle) *)
+  tag (match c_scat c with Some sc => odsk_eqb (option_map scatter_dsk md) (Some sc) | None => true end) 9 ++
+  tag (match c_opt c with
+       | Some o => match md with
+                   | Some d => let (d', ok) := fuse_steps (scatter_dsk d) (c_fsteps c) in ok && dsk_same d' o
+                   | None => false
+                   end
+       | None => true
+       end) 10 ++
   (* the property on the implementation's own outputs *)
   tag (result_eqb (ref_get fam_apply decl) (c_result c)) 11 ++
   tag (match c_result c with
@@ -221,6 +244,17 @@ Definition verdict (c : case) : list nat :=
        | None => true
        end) 15 ++
   tag (forallb (fun rn => result_eqb (fst rn) (c_result c) && (snd rn =? length (c_log c))) (c_alt c)) 16 ++
+  (* get_upstream_tasks(t) lists exactly the strict ancestors of t (as a set; a task appears once per edge) *)
+  tag (forallb (fun tu => setn_eqb (snd tu)
+                            (map (fun u => index_of u (nodes wf)) (ancestors task task_eqb wf (fst tu))))
+               (combine (nodes wf) (c_ups c))) 20 ++
+  (* the graph optimisation for dask.distributed keeps the result and the calls: evaluated with the model's
+     scheduler (futures unpacked) on the implementation's own optimized dict *)
+  tag (match c_opt c with
+       | Some o => let (r, lg) := dask_get_dist_log fam_apply o results in
+                   result_eqb r (c_result c) && perm_eqb lg (c_log c)
+       | None => true
+       end) 19 ++
   (* the hypothesis g_keys_fresh, checked on the real dict: one entry per task of the prepared workflow, all keys
      different, 'results' is the key of the output task and of nothing else *)
   tag (match c_dict c with
